@@ -65,7 +65,7 @@ __CPROVER_assigns(__CPROVER_object_upto(p, n))
 #ifdef BT_NEED_COPY
 /* std::copy(first, first + n, out) for non-overlapping byte ranges; returns out + n */
 uint8_t* bt_copy_u8(const uint8_t* first, size_t n, uint8_t* out)
-__CPROVER_requires(n <= BT_BYTES_MAX && __CPROVER_r_ok(first, n) && __CPROVER_rw_ok(out, n))
+__CPROVER_requires(n <= BT_BYTES_MAX && (n == 0 || (__CPROVER_r_ok(first, n) && __CPROVER_rw_ok(out, n))))
 __CPROVER_ensures(G_pre_j < n ==> out[G_pre_j] == first[G_pre_j])
 __CPROVER_ensures(G_pre_j2 < n ==> out[G_pre_j2] == first[G_pre_j2])
 __CPROVER_ensures(G_pre_j3 < n ==> out[G_pre_j3] == first[G_pre_j3])
